@@ -3,6 +3,7 @@ rules as xmlsem.concrete, producing z3 terms.  One definition, two interpretatio
 import z3
 
 from xmlsem import ir as X
+from xmlsem import wellformed as W
 from .exec import I, INT, BOOL, simp
 from .gen import BYTES, OBJ, EMPTY, SEQ_OBJ, SEQ_STR, ZSeq, MaybeV, ObjSym
 
@@ -353,7 +354,15 @@ class ParseSpec:
                     types[ins.name] = tref
                     v, ns = self.read_value(tref, st["s"], ins, lenvals)
                     if ins.optional:
-                        raise X.SpecError("optional length field (reading rules leave the referenced length undefined)")
+                        # absent exactly when no data remains; the value is defined for a referencing field only while
+                        # no <break> lies between the two (no data then remains for that field either, so it is absent)
+                        if W.optional_length_across_break(self.decl, ins.name):
+                            raise X.SpecError("optional length field referenced from a later chunk (reading rules leave "
+                                              "the referenced length undefined)")
+                        present = V.REM(st["s"]) > 0
+                        lenvals[ins.name] = v + ins.offset
+                        st["s"] = z3.If(present, ns, st["s"])
+                        continue
                     lenvals[ins.name] = v + ins.offset
                     st["s"] = ns
                 elif ins.tag == "array":
